@@ -163,7 +163,7 @@ class CallMixin:
         if isinstance(ty, T.List):
             n = T.list_len(ty, recv.t); arr = T.list_arr(ty, recv.t)
             if name == "append":
-                x = self.coerce(args[0], ty.t)
+                x = self.coerce(args[0], ty.t, st, node)
                 nv = SV(ty, T.list_mk(ty, n + 1, z3.Store(arr, n, x.t)))
                 for st2 in writeback(nv): yield st2, SV(T.NoneT, z3.BoolVal(True))
                 return
